@@ -67,3 +67,9 @@ reg("C19", "runtime monitor: state snapshots around every call of random library
 reg("C22", "runtime monitor: recording probe distributions and constraint predicates with unique values, returned sequences re-derived from their own values",
     "CustomDistribution functions are probes (unique fresh values, deterministic dependent/window functions), so each returned value identifies the call and attempt that produced it; every returned sequence is re-derived: counts, constraints at every trial, same-trial dependencies, documented windows with NaN rules, cumulative restarts, discrete part by R.",
     "probe functions deterministic in their arguments; built-in distributions observed through ranges only")
+reg("C05", "runtime monitor: exhaustive walk of RandomGen's random-draw tree under a scripted replacement of random.randrange, with exact path probabilities",
+    "Every leaf of the tree of draws of one real RandomGen.sample(block, 1) call is executed (odometer over recorded ranges); accepted leaves must map one-to-one onto the reference valid set, all leaves must be equally likely (exact Fractions) and their number must equal RandomGen's own exhaustion bound.",
+    "reference model R; random.randrange is the only randomness; trees up to 6000 (30000 thorough) leaves; designs with weighted uncrossed factors excluded here")
+reg("C23", "runtime monitor: differential comparison of a weighted design with its copy-expanded twin (exhausted solution multisets mapped back)",
+    "Each weighted basic level is replaced by separately named copies (tables rewritten); the twin's exhausted sequences, mapped back, with copies of crossed levels collapsed and copies of uncrossed levels kept distinct, must equal the weighted design's multiset for IterateSATGen and RandomGen; trial counts and constructor outcomes must agree.",
+    "copy semantics as documented for Level; constraints never name a weighted level directly; <= 900 twin sequences")
